@@ -431,9 +431,11 @@ class Rewriter:
         return text
 
 
-def tag_loops(text, fname, rw=None, expect=None):
+def tag_loops(text, fname, rw=None, expect=None, names=None):
     """Attach LOOP_<fname>_<k> macro after each loop header (for/while), k in
-    textual order.  `do { } while(c);` loops get the macro after `do`."""
+    textual order.  `do { } while(c);` loops get the macro after `do`.
+    names: optional list of (regex on the loop header text, suffix): a loop whose header matches gets LOOP_<fname>_<suffix>
+    instead of its ordinal, so that a change that removes or adds ANOTHER loop does not shift the contracts."""
     m = mask(text)
     out, pos, k = [], 0, 0
     for h in re.finditer(r'\b(for|while|do)\b', m):
@@ -458,7 +460,14 @@ def tag_loops(text, fname, rw=None, expect=None):
                 continue
         k += 1
         out.append(text[pos:c + 1])
-        out.append(' LOOP_%s_%d ' % (fname, k))
+        tag = str(k)
+        for pat, suffix in (names or ()):
+            if re.search(pat, text[h.start():c + 1]):
+                tag = suffix
+                break
+        if rw is not None and names:
+            rw.fired['loop:%s_%s' % (fname, tag)] = rw.fired.get('loop:%s_%s' % (fname, tag), 0) + 1
+        out.append(' LOOP_%s_%s ' % (fname, tag))
         pos = c + 1
     out.append(text[pos:])
     if expect is not None and k != expect:
